@@ -205,6 +205,16 @@ Qed.
 Lemma existsb_const_false {A} (l : list A) : existsb (fun _ => false) l = false.
 Proof. induction l as [|x t IH]; [reflexivity|exact IH]. Qed.
 
+Lemma existsb_ext' {A} (f g : A -> bool) l : (forall x, f x = g x) -> existsb f l = existsb g l.
+Proof. intro H. induction l as [|x t IH]; [reflexivity|]. cbn [existsb]. rewrite H, IH. reflexivity. Qed.
+
+Lemma dedup_perm a b : Permutation a b -> Permutation (dedup_str a) (dedup_str b).
+Proof.
+  intro H. apply NoDup_Permutation; [apply NoDup_dedup_str|apply NoDup_dedup_str|].
+  intro x. rewrite !In_dedup_str. split; intro Hx; [eapply Permutation_in; eassumption|].
+  eapply Permutation_in; [apply Permutation_sym; exact H|exact Hx].
+Qed.
+
 (* [Define.make_signature] looks at the required names only through membership *)
 Lemma make_signature_perm names r r' bp consts :
   Permutation r r' -> Define.make_signature names r bp consts = Define.make_signature names r' bp consts.
@@ -1517,5 +1527,166 @@ Section NewIsDefine.
     pose proof (agree_env_view _ _ _ _ (mh_env _ _ _ _ _ M)) as Hev.
     rewrite (get_all_fields_by_name_gen so X h gd (kc (c :: tail) own :: g) extra' c (kc (c :: tail) own) Hev);
       [reflexivity| rewrite find_klass_kc, pystr_eqb_refl; reflexivity | apply (mro_plain_kc own tail Hs Hgood)].
+  Qed.
+
+  (* ---------------------------------------------------------------- the statement that is taken by its contract *)
+
+  (* `if hasattr(clsobj, "__annotations__"): ...` completes the class's __annotations__ dict with the types of the
+     TypedFields it does not mention.  Its whole effect is on that one shared dict (which the model does not
+     carry): the contract says so, and that afterwards no non-field attribute of the statement is annotated
+     (an attribute that shadows an inherited TypedField would be: see the report) *)
+  Hypothesis H_annotations_completed : forall mro ms an h, cheap mro ms an h -> same_members ms ->
+    (forall n u, In (n, u) (s_attrs s) -> str_in n (map fst an) = false) -> (ann = [] -> an = []) ->
+    exists h' an',
+      StructMeta_new__if_hasattr_clsobj so X h (ref c) = Ok h' /\ cheap mro ms an' h' /\
+      (forall o a, pystr_eqb a n_dict_content = false \/ o <> annobj -> h' o a = h o a) /\
+      (forall n u, In (n, u) (s_attrs s) -> str_in n (map fst an') = false) /\ (ann = [] -> an' = []).
+
+  (* ... which holds outright for a class body without annotations *)
+  Lemma annotations_completed_none mro ms an h : ann = [] -> cheap mro ms an h ->
+    StructMeta_new__if_hasattr_clsobj so X h (ref c) = Ok h.
+  Proof.
+    intros Ha [_ Hann _]. unfold StructMeta_new__if_hasattr_clsobj, dv_hasattr, ref. rewrite pystr_eqb_refl, Hann, Ha. reflexivity.
+  Qed.
+
+  (* ---------------------------------------------------------------- the result *)
+
+  (* the class object [c] of heap [h] is the class description [k] *)
+  Record klass_cells (h : heap) (k : klass) : Prop := {
+    kc_name : k_name k = c;
+    kc_bases : k_bases k = s_bases s;
+    kc_mro : h c (s2p "mro()") = Some (PList (v_refs (k_mro k)));
+    kc_fields : h c (s2p "_fields") = Some (v_names (map fst (k_own k)));
+    kc_defaults : forall n, h (mobj n) n__default =
+                  match alist_get (k_own k) n with Some (MField fo) => Some (default_attr (fo_default fo)) | _ => None end;
+    kc_all : exists fbn, h c (s2p "_field_by_name") = Some (PDict (skeys fbn)) /\ map fst fbn = map fst (k_all k);
+    kc_required : exists req, Permutation req (k_required k) /\ h c (s2p "_required") = Some (v_names req);
+    kc_signature : exists req, Permutation req (k_sig_req k) /\
+                   h c (s2p "__signature__") = Some (v_sig req (k_sig_opt k) (k_sig_kwargs k));
+    kc_constants : h c (s2p "_constants") = Some (ref constsobj) /\
+                   h constsobj n_dict_content = Some (PDict (skeys (k_constants k)));
+    kc_additional : k_additional k = s_additional s /\ k_ignore_none k = s_ignore_none s }.
+
+  Hypothesis Hbase_modelled : base_info gd g (s_bases s) [] false <> Raise Unmodelled.
+  Hypothesis Hmro_fresh : forall mro, mro_of g c (s_bases s) = Ok mro -> ~ In c (tl_str mro).
+  Hypothesis Hattrs_not_annotated : forall n u, In (n, u) (s_attrs s) -> str_in n (map fst ann) = false.
+  Hypothesis Hmembers : map fst (s_members s) = names.
+
+  Theorem new_is_define_new h0 :
+    mheap g extra ann h0 pre -> h0 constsobj n_dict_content = None ->
+    match define_new re_match e gd g s pre with
+    | Ok k => exists h' cd',
+        StructMeta_new so X h0 p_cls (PStr c) (PTuple (v_refs (s_bases s))) cd0 = Ok (h', ref c, cd') /\ klass_cells h' k
+    | Raise x => StructMeta_new so X h0 p_cls (PStr c) (PTuple (v_refs (s_bases s))) cd0 = Raise x
+    end.
+  Proof.
+    intros M0 Hfree0. unfold StructMeta_new, define_new. rewrite Hmembers.
+    (* the bases *)
+    rewrite (new_bases h0 g extra (agree_env_view _ _ _ _ (mh_env _ _ _ _ _ M0)) Hbases_ok Hbase_modelled).
+    destruct (base_info gd g (s_bases s) [] false) as [bp|x] eqn:Hbp; cbn [bind]; [|reflexivity].
+    (* annotations, _defaults, instantiation, ClassReference, fields *)
+    rewrite new_annotations. cbn [bind]. rewrite new_defaults. cbn [bind].
+    assert (Hs0 : same_members pre) by reflexivity.
+    rewrite (new_instantiate g extra ann h0 pre _ M0 Hs0). cbn [bind].
+    rewrite (new_classref_loop g extra ann h0 pre M0 Hs0). cbn [bind].
+    rewrite (new_fields g extra ann h0 pre M0 Hs0). cbn [bind].
+    (* the field names *)
+    pose proof (new_field_names_src so X ents names h0 (fun n Hn => ex_intro _ (mobj n) (member_entry n Hn))) as Hnames.
+    destruct (StructMeta_new__for_field_name so X h0 (PDict (skeys ents)) (v_names names)) as [h1|x] eqn:E1.
+    2:{ destruct Hnames as [-> Hb]. rewrite Hb. cbn [check bind]. reflexivity. }
+    destruct Hnames as [Hgood Hh1]. rewrite Hgood. cbn [check bind].
+    assert (M1 : mheap g extra ann h1 pre).
+    { apply (mheap_transfer _ _ _ h0); [| | |exact M0].
+      - intros o a Ha _. apply Hh1. intro; subst a. discriminate.
+      - intros o _. apply Hh1. discriminate.
+      - intros x kx a Hk Hin. apply Hh1. intro; subst a. destruct (Hg_members x kx Hk) as [_ Hb].
+        rewrite forallb_forall in Hb. specialize (Hb _ Hin). discriminate. }
+    (* the non-typedpy assignments *)
+    rewrite (new_non_typedpy g extra ann h1 pre M1 Hs0 Hgood).
+    destruct (gd_block_non_typedpy gd && existsb non_typedpy_assignment (s_attrs s)); cbn [check bind]; [reflexivity|].
+    (* the `= value` defaults *)
+    pose proof (new_apply_default g extra ann h1 M1 (fun x kx Hk => find_klass_not_pseudo g x kx Hg_names Hk)) as Hap.
+    destruct (mapM (apply_member re_match e defs) pre) as [own|x] eqn:Hown; cbn [bind]; [|rewrite Hap; reflexivity].
+    destruct Hap as [h2 [req [Hperm [M2 [Hh2 Hrun]]]]]. rewrite Hrun. cbn [bind].
+    destruct (apply_members_shape pre own Hown) as [Hs2 _]. fold (same_members own) in Hs2.
+    rewrite new_pop. cbn [bind].
+    (* the class object *)
+    rewrite new_clsobj. destruct (mro_of g c (s_bases s)) as [mro|x] eqn:Hmro; cbn [bind]; [|reflexivity].
+    assert (Emro : exists tail, mro = c :: tail).
+    { unfold mro_of in Hmro. destruct (has_dup_str (s_bases s)); [discriminate|]. destruct (mros_of g (s_bases s)); cbn [bind] in Hmro; [|discriminate].
+      destruct (c3_merge _ _); inversion Hmro. eexists. reflexivity. }
+    destruct Emro as [tail ->]. pose proof (Hmro_fresh (c :: tail) eq_refl) as Hnc. cbn [tl_str] in Hnc |- *.
+    rewrite (new_check_final extra ann h2 own tail M2 Hnc).
+    destruct (final_violation g tail); cbn [check bind]; [reflexivity|].
+    rewrite new_set_fields. cbn [bind].
+    pose proof (created_cheap ann h2 own tail M2 Hs2 Hnc Hgood) as C3.
+    set (h3 := heap_set (created h2 (c :: tail)) c (s2p "_fields") (v_names names)) in *.
+    assert (Hfree3 : h3 constsobj n_dict_content = None).
+    { unfold h3. rewrite heap_set_other_obj by exact constsobj_not_c. rewrite created_other by exact constsobj_not_c.
+      rewrite Hh2 by discriminate. rewrite Hh1 by discriminate. exact Hfree0. }
+    (* the annotations are completed (contract) *)
+    destruct (H_annotations_completed _ _ _ _ C3 Hs2 Hattrs_not_annotated (fun H => H)) as [h4 [an' [Hrun4 [C4 [Hh4 [Hna4 Hann4]]]]]].
+    rewrite Hrun4. cbn [bind].
+    assert (Hfree4 : h4 constsobj n_dict_content = None).
+    { rewrite Hh4; [exact Hfree3|]. right. intro E. assert (P : pseudo_attr annobj = true) by reflexivity. rewrite <- E, constsobj_plain in P. discriminate. }
+    (* all_fields / default_required: evaluated, not used *)
+    destruct (new_all_fields h4 bp) as [vdr Hdr].
+    destruct (StructMeta_new__set_all_fields so X h4 (v_params bp) (v_names (bases_required bp)) (v_names names)) as [vaf|x] eqn:Eaf; cbn [bind] in Hdr; [|discriminate].
+    cbn [bind]. rewrite Hdr. cbn [bind].
+    (* the Constants *)
+    destruct (new_constants_dict _ _ _ _ Hs2 Hgood C4 Hfree4) as [h5 [Hrun5 [C5 [Hcc5 Hcd5]]]]. rewrite Hrun5. cbn [bind].
+    pose proof (new_constants_loop own an' h5 tail C5 Hs2 Hnc Hgood Hown Hcc5 Hcd5) as Hloop. cbn zeta in Hloop.
+    set (consts := constants_of (all_fields g tail own)) in *.
+    destruct (forallb (fun nv => const_type_ok (snd nv)) consts); cbn [negb check bind]; [|rewrite Hloop; reflexivity].
+    destruct Hloop as [h6 [Hrun6 Hinv6]]. rewrite Hrun6. cbn [bind].
+    pose proof (cheap_consts_inv _ _ _ _ _ _ C5 Hinv6) as C6.
+    assert (Hcc6 : h6 c (s2p "_constants") = Some (ref constsobj)) by (rewrite (proj1 Hinv6); [exact Hcc5|left; reflexivity]).
+    pose proof (proj2 Hinv6) as Hcd6.
+    (* _required *)
+    rewrite (new_required_src so X h6 (ents2 req) vdr (v_names req)) by (rewrite ents2_get by discriminate; reflexivity).
+    cbn [bind].
+    destruct (new_required_attr_src so X h6 c (bases_required bp) req Hso) as [rq [Hprq Hrun7]]. rewrite Hrun7. cbn [bind].
+    set (h7 := heap_set h6 c (s2p "_required") (v_names rq)) in *.
+    assert (C7 : cheap (c :: tail) own an' h7) by (apply (cheap_set_late _ _ _ _ _ _ Hs2 Hgood); [cbn; tauto|exact C6]).
+    assert (Hcc7 : h7 c (s2p "_constants") = Some (ref constsobj)) by (unfold h7; rewrite heap_set_other_attr by discriminate; exact Hcc6).
+    assert (Hcd7 : h7 constsobj n_dict_content = Some (PDict (skeys consts))) by (unfold h7; rewrite heap_set_other_attr by discriminate; exact Hcd6).
+    (* _optional *)
+    rewrite new_optional_fields. cbn [bind]. rewrite new_optional_check_src.
+    assert (Eopt : existsb (fun f => str_in f req || str_in f (bases_required bp)) (opt_list (s_optional s)) =
+                   existsb (fun f => str_in f (own_required s own) || str_in f (bases_required bp)) (opt_list (s_optional s))).
+    { apply existsb_ext'. intro f. rewrite (str_in_perm f _ _ Hperm). reflexivity. }
+    rewrite Eopt. clear Eopt.
+    destruct (existsb (fun f => str_in f (own_required s own) || str_in f (bases_required bp)) (opt_list (s_optional s))); cbn [check bind]; [reflexivity|].
+    (* unknown attributes *)
+    rewrite (new_block _ _ _ h7 req C7 Hs2 Hna4 Hann4).
+    destruct (gd_block_unknown_consts gd && existsb invalid_const (s_attrs s)); cbn [check bind]; [reflexivity|].
+    rewrite new_old_additional. cbn [bind]. rewrite (new_additional_props _ _ _ h7 req C7). cbn [bind].
+    (* the signature *)
+    pose proof (new_sig own an' h7 tail bp req consts C7 Hs2 Hgood Hbp Hperm Hcc7 Hcd7) as Hsig.
+    destruct (Define.make_signature names (own_required s own) bp (map fst consts)) as [sg|x]; cbn [bind]; [|rewrite Hsig; reflexivity].
+    destruct Hsig as [rqs [Hprqs Hrun8]]. rewrite Hrun8. cbn [bind].
+    rewrite (new_field_by_name own an' h7 tail C7 Hs2 Hgood). cbn [bind].
+    unfold StructMeta_new__call_setattr___signature, StructMeta_new__call_setattr__field_by_name, StructMeta_new__return.
+    rewrite !setattr_ref. cbn [bind].
+    eexists. eexists. split; [reflexivity|].
+    destruct C7 as [M7 _ _].
+    constructor; cbn [k_name k_bases k_mro k_own k_all k_required k_sig_req k_sig_opt k_sig_kwargs k_constants k_additional k_ignore_none].
+    - reflexivity.
+    - reflexivity.
+    - rewrite !heap_set_other_attr by discriminate. rewrite (ae_cells _ _ _ _ (mh_env _ _ _ _ _ M7) c (s2p "mro()")) by reflexivity.
+      unfold genv_heap. rewrite find_klass_kc, pystr_eqb_refl. reflexivity.
+    - rewrite !heap_set_other_attr by discriminate. rewrite (ae_cells _ _ _ _ (mh_env _ _ _ _ _ M7) c (s2p "_fields")) by reflexivity.
+      unfold genv_heap. rewrite find_klass_kc, pystr_eqb_refl. reflexivity.
+    - intro n. rewrite !heap_set_other_attr by discriminate. apply (mh_default _ _ _ _ _ M7).
+    - eexists. split; [rewrite heap_set_same; reflexivity|].
+      unfold v_fields_of_mro. rewrite (all_fields_fold own tail Hnc).
+      rewrite <- (map_map (fun p : pystr * pyval => (fst p, tt)) fst), <- (map_map (fun p : pystr * member => (fst p, tt)) fst).
+      rewrite (mro_fold_map (fun _ : pyval => tt)), (mro_fold_map (fun _ : member => tt)). reflexivity.
+    - exists rq. split; [|rewrite !heap_set_other_attr by discriminate; unfold h7; apply heap_set_same].
+      eapply Permutation_trans; [exact Hprq|]. apply dedup_perm. apply Permutation_app_head. exact Hperm.
+    - exists rqs. split; [exact Hprqs|]. rewrite heap_set_other_attr by discriminate. apply heap_set_same.
+    - split; [rewrite !heap_set_other_attr by discriminate; exact Hcc7|].
+      rewrite !heap_set_other_obj by exact constsobj_not_c. exact Hcd7.
+    - split; reflexivity.
   Qed.
 End NewIsDefine.
